@@ -1194,7 +1194,7 @@ ASSUME = {
     "C07": [A_MODEL, A_FS, "os.Rename over an existing file is atomic; a crash falls between two file-system calls"],
     "C08": [A_MODEL, "the lockset table extracted from the Go AST describes the code (walker semantics: inlining, defer, branches)", "sync.RWMutex semantics",
             "the sharded index is one atomic map per operation (shard locks; C09_generated)"],
-    "C09": ["lockset table as under C08", "the Go memory model is not formalised; races inside third-party containers / fio.MMap are outside the model",
+    "C09": ["lockset table as under C08", "the Go memory model is not formalised; races inside third-party containers (google/btree, huandu/skiplist, mmap-go) are outside the model; fio.MMap is covered by its own generated lock table",
             "the race detector sees only executed schedules (search role)"],
     "C10": [A_MODEL, A_THIRD, "xxhash is an arbitrary function (shard of a key is an input of the model)"],
     "C11": [A_MODEL, "hash/crc32 IEEE = the bitwise reflected CRC-32 of the model (checked by byte-exact file sums)"],
